@@ -8,6 +8,7 @@ by tools/harness/c07.py.  `ValidDendro n D` (Spec/Dendro.lean) is the executable
 import SkNet.Lemmas.GetDendro
 import SkNet.Lemmas.Valid
 import SkNet.Lemmas.Paris
+import SkNet.Lemmas.Reorder
 
 namespace SkNet.C07
 open SkNet SkNet.Dendro SkNet.Hier
@@ -173,5 +174,61 @@ example : (fitRows (α := Int) id 100
     = some (some ([(1, 0, 2), (4, 2, 3), (5, 3, 4)], true)) := by decide
 
 end paris
+
+
+/-! ### reorder_dendrogram -/
+
+section reorder
+open SkNet.Cut
+variable {α : Type} [LinearOrder α]
+
+/-- **reorder_dendrogram** (`reorder_valid`): for a valid dendrogram whose heights never decrease from a merge to its
+    parent — what Paris' reducible linkage and the depth-based heights of the Louvain hierarchies give —
+    `reorder_dendrogram` returns a valid dendrogram with non-decreasing height column and the same merge tree:
+    the row of merge `t` is found at position `pos t` with the same height and size, and the node renamed from `x`
+    has exactly the same leaves (a child always sorts before its parent: equal heights are separated by the
+    larger-child key). -/
+theorem reorder_valid {n : Nat} {D : Dendro α} (hv : ValidDendro n D = true) (hm : MonoPaths n D = true) :
+    ∃ D', reorderDendrogram D = .ok D' ∧ ValidDendro n D' = true ∧ heightsSorted D' = true ∧
+      (∀ x, x < n + D.length → leaves n D' (indexNewOf D x) = leaves n D x) ∧
+      (∀ t r, D[t]? = some r → ∃ r', D'[posOf (lexsortIdx D) t]? = some r' ∧ r'.h = r.h ∧ r'.s = r.s) := by
+  have hlen := valid_length hv
+  have hs := static_of_valid (w := List.replicate n 1) hv
+  have hn : (List.replicate n 1).length = n := by simp
+  refine ⟨(lexsortIdx D).filterMap fun t => (D[t]?).map (renameRow D), ?_,
+    valid_of_static (reorder_static hs (monoRows_of_monoPaths hm)), reorder_sorted D,
+    reorder_leaves hv hm, ?_⟩
+  · -- the index check of numpy passes: every child is a node of the tree
+    unfold reorderDendrogram
+    simp only
+    have hall : (D.all fun r => decide (r.i < 2 * (D.length + 1) - 1) && decide (r.j < 2 * (D.length + 1) - 1)) = true := by
+      rw [List.all_eq_true]
+      intro r hr
+      obtain ⟨t, ht, hrt⟩ := List.getElem_of_mem hr
+      have hb := hs.bound t r (by rw [List.getElem?_eq_getElem ht, hrt])
+      rw [hn] at hb
+      simp only [Bool.and_eq_true, decide_eq_true_eq]
+      omega
+    rw [if_pos hall]
+    rfl
+  · intro t r hr
+    have ht : t < D.length := (List.getElem?_eq_some_iff.mp hr).1
+    obtain ⟨rc, hrc, hg⟩ := reorder_get (idxOf_getElem (mem_lexsortIdx.mpr ht))
+    rw [hr] at hrc
+    cases hrc
+    exact ⟨_, hg, rfl, rfl⟩
+
+/-- non-vacuity: a valid dendrogram in creation order (as `Paris(reorder=False)` returns it), monotone towards the
+    root but not sorted by row; its reordering -/
+example : ValidDendro 4 ([⟨0, 1, 3, 2⟩, ⟨2, 3, 1, 2⟩, ⟨4, 5, 3, 4⟩] : Dendro Nat) = true ∧
+    MonoPaths 4 ([⟨0, 1, 3, 2⟩, ⟨2, 3, 1, 2⟩, ⟨4, 5, 3, 4⟩] : Dendro Nat) = true ∧
+    (reorderDendrogram ([⟨0, 1, 3, 2⟩, ⟨2, 3, 1, 2⟩, ⟨4, 5, 3, 4⟩] : Dendro Nat)).toOption =
+      some [⟨2, 3, 1, 2⟩, ⟨0, 1, 3, 2⟩, ⟨5, 4, 3, 4⟩] := by decide
+
+/-- without monotone heights the result is not a dendrogram (the parent is written before its child) -/
+example : ((reorderDendrogram ([⟨0, 1, 5, 2⟩, ⟨2, 3, 1, 3⟩] : Dendro Nat)).toOption.map (ValidDendro 3)) = some false := by
+  decide
+
+end reorder
 
 end SkNet.C07
